@@ -88,6 +88,9 @@ def run_one(job):
         # the library memory's allocator is part of the program under test
         c = c + "\n/* ---- exo/libs/custom_malloc.c ---- */\n" + open(os.path.join(d, "custom_malloc.c")).read()
     r = cback.build_and_run(c, h, driver, extra_files=extra)
+    if not r["compile_ok"] and r.get("stage") == "timeout":
+        out["status"] = "harness-timeout"
+        return out
     if not r["compile_ok"]:
         out["status"] = "c-compile-failed"
         out["bad"].append({"kind": "c-compile-failed", "detail": r["compile_err"][-1500:], "stage": r.get("stage"), "c": c[-3000:]})
